@@ -38,6 +38,20 @@ TRANSCRIBED_ENV = {
 }
 
 
+def transcribed_env(ctx, *fis):
+    """TRANSCRIBED_ENV plus every local name bound to one of its expressions (e.g. `is_transcribed = self.master is not None and ...`)."""
+    env = dict(TRANSCRIBED_ENV)
+    for fi in fis:
+        if fi is None:
+            continue
+        for n in ast.walk(fi.node):
+            if isinstance(n, ast.Assign) and len(n.targets) == 1 and isinstance(n.targets[0], ast.Name):
+                v = const_guard(n.value, TRANSCRIBED_ENV)
+                if v is not None and not isinstance(n.value, ast.Constant):
+                    env[n.targets[0].id] = v
+    return env
+
+
 def _is_invalidate(n):
     return (is_call_to(n, "_set_transcribed") and len(n.args) == 1 and isinstance(n.args[0], ast.Constant)
             and n.args[0].value is False)
@@ -134,6 +148,7 @@ def r13_1(ctx):
             sites = collect_write_sites(ctx, f, spec, cfg)
             if not sites:
                 continue
+            ENV = transcribed_env(ctx, f)
             site_nodes = {id(node) for (_g, node, _a) in sites}
             closures_with_writes = {g.name for (g, _n, _a) in sites if g.outer is not None}
 
@@ -151,13 +166,13 @@ def r13_1(ctx):
                 sg = ctx.scope(g)
                 feas = True
                 for test, pol in sg.guards(node):
-                    v = const_guard(test, TRANSCRIBED_ENV)
+                    v = const_guard(test, ENV)
                     if v is not None and v != pol:
                         feas = False
                 if g.outer is not None:
                     so = ctx.scope(g.outer)
                     for test, pol in so.guards(g.node):
-                        v = const_guard(test, TRANSCRIBED_ENV)
+                        v = const_guard(test, ENV)
                         if v is not None and v != pol:
                             feas = False
                 if not feas:
@@ -165,14 +180,14 @@ def r13_1(ctx):
                     continue
                 one = lambda n, _n=node: n is _n
                 # (A) inside the writer function: every non-raising path through the write has the event
-                okA, badA = write_implies_event(g.node.body, one, _event, env=TRANSCRIBED_ENV, inline=_inline_self(prog, g))
+                okA, badA = write_implies_event(g.node.body, one, _event, env=ENV, inline=_inline_self(prog, g))
                 okB, badB = True, []
                 if not okA:
                     # (B) in the public method (closure hand-over or private callee counts as the write)
                     if g is f:
                         okB, badB = False, badA
                     else:
-                        okB, badB = write_implies_event(f.node.body, wp, _event, env=TRANSCRIBED_ENV, inline=_inline_self(prog, f))
+                        okB, badB = write_implies_event(f.node.body, wp, _event, env=ENV, inline=_inline_self(prog, f))
                 ctx.check(okA or okB, inst, detail="no invalidation",
                           expected="self._set_transcribed(False), a write-through to the live transcription, or mark_dirty() on every non-raising path that performs the write",
                           found="path that writes without any of them: " + ", ".join(describe_exit(e) for e in (badB or badA)[:3]),
@@ -313,10 +328,38 @@ def r13_3(ctx):
 
     w = W()
     w.run(tr.node.body, False)
-    ctx.check(not w.bad, "Ocp._transcribe", detail="phase 1 reachable without reset of method state",
-              expected="a call that resets every stage's method object (self._untranscribe_recurse(...)) before self._transcribe_recurse(phase=1)",
-              found="phase-1 call at line %s reached with stale method state" % ", ".join(str(b.lineno) for b in w.bad),
-              fi=tr, node=(w.bad[0] if w.bad else tr.node))
+    central = not w.bad
+
+    # ... or each concrete sampling method resets itself before it builds anything in phase 1
+    class C(Walker):
+        def __init__(s):
+            super().__init__()
+            s.bad = []
+
+        def guard(s, test, state):
+            return const_guard(test, {"phase": 1})
+
+        def transfer(s, node, state):
+            for sub in sorted(walk_no_nested(node), key=lambda x: (getattr(x, "lineno", 0), getattr(x, "col_offset", 0))):
+                if is_call_to(sub, "clean", "self"):
+                    state = True
+                elif isinstance(sub, ast.Call) and isinstance(sub.func, ast.Attribute) and ast.unparse(sub.func.value) == "self" and not state:
+                    s.bad.append(sub)
+            return state
+
+    for cname in prog.subclasses("SamplingMethod"):
+        if cname == "SamplingMethod":
+            continue
+        t = prog.method(cname, "transcribe")
+        c = C()
+        c.run(t.node.body, False)
+        local = not c.bad
+        ctx.check(central or local, "%s: method state reset before phase-1 transcription" % cname,
+                  detail="phase 1 reachable without reset of method state",
+                  expected="self.clean() before anything is built in %s (phase 1), or a reset of all method objects in Ocp._transcribe before phase 1" % t.qualname,
+                  found="%s reached with the lists of the previous transcription still in place" % (
+                      ("self.%s(...) at %s:%d" % (c.bad[0].func.attr, t.module.relpath, c.bad[0].lineno)) if c.bad else "phase 1"),
+                  fi=t, node=(c.bad[0] if c.bad else t.node))
 
     # (b) the recursive reset reaches every stage's method.untranscribe
     ur = prog.own_method("Stage", "_untranscribe_recurse")
